@@ -22,7 +22,7 @@ def one(sid):
         for p in props:
             c = subprocess.run([os.path.join(VERIF, "check"), p], env=dict(os.environ, VERIF_REPO=tmp, VERIF_NO_EVIDENCE="1"), capture_output=True, text=True)
             out = c.stdout
-            rules = sorted({l.split()[1] for l in out.splitlines() if l.startswith("/") and len(l.split()) > 2 and l.split()[1].startswith("R")})
+            rules = sorted({l.split()[1] for l in out.splitlines() if l.startswith("/") and len(l.split()) > 2 and l.split()[1][:1] in ("R", "F")})
             res[p] = {"exit": c.returncode, "rules": rules, "violations": [l.replace(tmp, "/repo") for l in out.splitlines() if l.startswith("/")][:4]}
         return sid, meta, res
     finally:
